@@ -1069,6 +1069,92 @@ fn body_wasm(ch: &Ch) -> Run {
   run
 }
 
+/// Two import statements for one WebAssembly module, each evaluating or
+/// source-phase, static or dynamic, met in either order: the entry of the
+/// module (and what it brings in) must be the join of what each statement
+/// alone gives — an evaluating import anywhere means a loaded module.
+fn body_wasm_importers(ch: &Ch) -> Run {
+  let mut run = Run::default();
+  const STMTS: [&str; 4] = ["static", "dynamic", "static-source-phase", "dynamic-source-phase"];
+  let render = |k: usize, text: &str, name: &str| -> String {
+    match k {
+      0 => format!("import * as {name} from \"{text}\";\n"),
+      1 => format!("const {name} = import(\"{text}\");\n"),
+      2 => format!("import source {name} from \"{text}\";\n"),
+      _ => format!("const {name} = import.source(\"{text}\");\n"),
+    }
+  };
+  let kind = *ch.pick("graph_kind", &[GraphKind::All, GraphKind::CodeOnly, GraphKind::TypesOnly]);
+  let is_dynamic = ch.flag("root_is_dynamic");
+  let s1 = ch.shape("first_statement", 4);
+  let s2 = ch.shape("second_statement", 4);
+  // where the second statement lives: the same module (under another spelling
+  // of the specifier) after or before the first, or a module imported after or before it
+  let place = ch.shape("second_statement_in", 4);
+  let build = |with1: bool, with2: bool| -> Option<(String, bool, BTreeSet<String>)> {
+    let sched = Sched::new(SchedMode::Immediate);
+    let loader = ScriptedLoader::new(sched);
+    loader.add("https://x/m.wasm", Entry::bytes(&wasm_binary(&[("./a.ts", "f0", "function")])));
+    loader.add_text("https://x/a.ts", "export function f0(): void {}\n");
+    let st1 = if with1 { render(s1, "./m.wasm", "w1") } else { String::new() };
+    let st2_here = if with2 { render(s2, "https://x/m.wasm", "w2") } else { String::new() };
+    let st2_there = if with2 { render(s2, "./m.wasm", "w2") } else { String::new() };
+    let main = match place {
+      0 => format!("{st1}{st2_here}"),
+      1 => format!("{st2_here}{st1}"),
+      2 => format!("{st1}import \"./side.ts\";\n"),
+      _ => format!("import \"./side.ts\";\n{st1}"),
+    };
+    loader.add_text("https://x/main.ts", &main);
+    loader.add_text("https://x/side.ts", &st2_there);
+    let mut g = ModuleGraph::new(kind);
+    build_graph(&mut g, vec![url("https://x/main.ts")], &loader, BuildCfg { is_dynamic, ..Default::default() }, ch).ok()?;
+    let entry = match g.try_get(&url("https://x/m.wasm")) {
+      Ok(Some(m @ deno_graph::Module::Wasm(_))) => format!("3:wasm-module deps={:?}", m.dependencies().keys().collect::<Vec<_>>()),
+      Ok(Some(deno_graph::Module::External(_))) => "2:asset".to_string(),
+      Ok(Some(m)) => format!("2:{:?}", m.media_type()),
+      Err(e) => format!("1:error {}", err_kind(e)),
+      Ok(None) => "0:absent".to_string(),
+    };
+    let a_present = g.contains(&url("https://x/a.ts"));
+    let all: BTreeSet<String> = g.specifiers().map(|(s, _)| s.to_string()).filter(|s| !s.ends_with("side.ts")).collect();
+    Some((entry, a_present, all))
+  };
+  let (Some(both), Some(only1), Some(only2)) = (build(true, true), build(true, false), build(false, true)) else {
+    run.violate("build-did-not-finish", "deadlock", json!({}));
+    return run;
+  };
+  run.evals = 3;
+  let join = if only1.0 >= only2.0 { &only1 } else { &only2 };
+  let case = json!({"graph_kind": format!("{kind:?}"), "root_is_dynamic": is_dynamic, "first_statement": STMTS[s1], "second_statement": STMTS[s2],
+    "second_statement_in": (["main.ts after the first (absolute spelling)", "main.ts before the first (absolute spelling)", "side.ts, imported after the first", "side.ts, imported before the first"][place]),
+    "m.wasm with both": both.0, "with the first only": only1.0, "with the second only": only2.0});
+  if both.0 != join.0 || both.1 != (only1.1 || only2.1) {
+    run.violate(
+      format!("two-importers-of-a-wasm-module-give-less-than-one@{}+{}", STMTS[s1], STMTS[s2]),
+      format!("m.wasm is {:?} (a.ts present: {}) with both statements; alone they give {:?} / {:?} (a.ts present: {} / {})", both.0, both.1, only1.0, only2.0, only1.1, only2.1),
+      case.clone(),
+    );
+  }
+  run.count(if both.0.starts_with("3:") { "worlds_where_m_wasm_is_a_loaded_module" } else if both.0.starts_with("2:") { "worlds_where_m_wasm_is_an_asset" } else { "worlds_where_m_wasm_is_an_error_or_absent" }, 1);
+  run.count("worlds_where_the_two_statements_alone_give_different_entries", (only1.0 != only2.0) as u64);
+  let union: BTreeSet<String> = only1.2.union(&only2.2).cloned().collect();
+  if both.2 != union {
+    run.violate(
+      format!("two-importers-graph-is-not-the-union@{}+{}", STMTS[s1], STMTS[s2]),
+      format!("specifiers with both statements {:?}, union of the single-statement graphs {:?}", both.2, union),
+      case.clone(),
+    );
+  }
+  run.state_key = hash_of(&(format!("{kind:?}"), is_dynamic, s1, s2, place));
+  run.nontrivial = s1 != s2;
+  run.outcome_key = hash_of(&(both.0.clone(), both.1));
+  if ch.describe() {
+    run.sample = Some(case);
+  }
+  run
+}
+
 pub fn prop(tier: Tier) -> Prop {
   let parts = match tier {
     Tier::Quick => vec![
@@ -1118,6 +1204,12 @@ pub fn prop(tier: Tier) -> Prop {
     body: Box::new(body_templates),
     modes: vec![Mode::Full],
     what: "template-literal dynamic imports expanded against a directory tree (19 files incl. hidden / node_modules / vendor directories, JSON, declaration and text files): 18 templates x 2 importing modules x 3 graph kinds x skip_dynamic_deps x an additional static import; recorded dynamic dependencies and the loaded set vs a reference of what the template stands for",
+  });
+  parts.push(Part {
+    name: "wasm-importers",
+    body: Box::new(body_wasm_importers),
+    modes: vec![Mode::Full],
+    what: "two import statements for one WebAssembly module (each static / dynamic / static source-phase / dynamic source-phase; second one in the same module under another spelling or in a sibling module, before or after the first) x 3 graph kinds x is_dynamic: the module's entry and the graph equal the join / union of the single-statement builds",
   });
   parts.push(Part {
     name: "wasm-imports",
